@@ -58,7 +58,7 @@ def mkEnv (kv : KV) : Option Env := do
   let domain ← (kv.get? "domain") >>= Bytes.ofHex
   let rhost ← (kv.get? "rhost") >>= Bytes.ofHex
   let ts ← (kv.get? "ts") >>= Bytes.ofHex
-  let ipT ← parseIpTable ((kv.get? "ip").getD "-")
+  let ipF ← ipOfToken ((kv.get? "ip").getD "-")
   let reT := table ((kv.get? "re").getD "-")
   let argsT := table ((kv.get? "args").getD "-")
   let hdrT := table ((kv.get? "hdr").getD "-")
@@ -68,7 +68,7 @@ def mkEnv (kv : KV) : Option Env := do
   let fail ← hexList ((kv.get? "fail").getD "_")
   pure {
     naming := naming, pol := Policy.process pol, maxRcpt := maxRcpt, maxBytes := maxBytes, domain := domain,
-    remoteHost := rhost, tstamp := ts, ip := ipFun ipT,
+    remoteHost := rhost, tstamp := ts, ip := ipF,
     mailRe := fun arg =>
       match lookup reT (Bytes.toHex arg) with
       | some ["1", a, p] => (match Bytes.ofHex a, Bytes.ofHex p with | some a, some p => some (a, p) | _, _ => none)
